@@ -105,7 +105,7 @@ class C11(UdpCheck):
         nf = rng.choice([3, 6, 10])
         for j in range(nf):
             kind = rng.choice(["random", "magic", "header", "hello-replay", "hello-replay", "hello-mutated", "hello-short",
-                               "mutate-genuine", "hello-reseq", "hello-reseq"])
+                               "mutate-genuine", "hello-reseq", "hello-reseq", "smuggle"])
             srcmode = rng.choice(["fresh", "fresh", "victim", "blocked", "blocked-mapped", "port0", "one"])
             if srcmode == "blocked-mapped" and cfg.get("entry") != "twisted":
                 srcmode = "blocked"     # only the Twisted entry can listen on a dual stack socket; _UdpServer is AF_INET
@@ -114,12 +114,16 @@ class C11(UdpCheck):
             plan.append({"op": "flood", "global": True, "t": round(0.6 + rng.random() * (dur - 4.5), 3), "kind": kind,
                          "srcmode": srcmode, "count": rng.choice([100, 400, 1500]), "spread": rng.choice([0.0, 0.05, 0.5]),
                          "n": j, "victim": rng.randrange(n)})
+        rng_w = random.Random("winsock|%s" % (rng.getstate()[1][:3],))      # (does not consume from the main stream)
         if cfg["entry"] == "udpserver" and rng.random() < 0.3:
             # Windows reports an ICMP "port unreachable" for an earlier reply (to a peer that is gone, or never existed) as
             # ECONNRESET on the server's NEXT recvfrom: a failing system call provoked by any datagram source
             for j in range(rng.choice([1, 3])):
                 plan.append({"op": "recvreset", "global": True, "t": round(1.0 + rng.random() * (dur - 5.0), 3)})
-        rng_w = random.Random("winsock|%s" % (rng.getstate()[1][:3],))      # (does not consume from the main stream)
+            if rng_w.random() < 0.4:
+                # ... many of them over the life of the server (every reply to a vanished peer can cause one)
+                for j in range(rng_w.choice([18, 40])):
+                    plan.append({"op": "recvreset", "global": True, "t": round(0.8 + rng_w.random() * (dur - 5.0), 3)})
         if cfg["entry"] == "udpserver" and rng_w.random() < 0.4:
             # a Windows socket reports a datagram larger than the receive buffer as an error of recvfrom (WSAEMSGSIZE)
             # instead of truncating it silently: "oversized packets" from any source become failing system calls
@@ -190,6 +194,18 @@ class C11(UdpCheck):
                 h = R.enc_header(False, rng.randrange(2 ** 32), rng.randrange(1, 65536), rng.randrange(65536),
                                  rng.randrange(8), rng.choice([ln, ln, 0, 65535]), rng.choice([0, 1, 2, 3, 255]), rng.randrange(2 ** 32))
                 d = h + rng.randbytes(ln + rng.choice([0, 4, 16]))
+            elif kind == "smuggle":
+                # CRC-only datagram whose header says CLIENT_HELLO but which carries several messages of other handshake /
+                # application types (a challenge response echoing token 0, keep-alives, app data): nothing of it may be
+                # processed for an address without a key, and nothing may be sent back
+                from world.seams import conn_mod
+                cr = conn_mod.HandshakeClientChallengeResponseMessage()
+                cr.token = rng.choice([0, 0, 1, 0xFFFFFFFF])
+                inner = rng.choice([[R.T_CHALLENGE_RESP, R.T_CHALLENGE_RESP], [R.T_CHALLENGE_RESP, R.T_APP], [R.T_KEEP_ALIVE, R.T_CHALLENGE_RESP],
+                                    [R.T_APP, R.T_APP], [R.T_CHALLENGE_RESP, R.T_KEEP_ALIVE, R.T_APP]])
+                msgs = [(rng.randrange(1, 65536), t, cr.dumpb() if t == R.T_CHALLENGE_RESP else b"smuggled") for t in inner]
+                d = R.forge_plain(False, rng.choice([R.T_CLIENT_HELLO, R.T_CLIENT_HELLO, R.T_CHALLENGE_RESP]), rng.randrange(1, 65536), 0, 0, msgs,
+                                  ctime=1_700_000_000 + rng.randrange(10 ** 6))
             elif hello is None:
                 d = rng.randbytes(40)
             elif kind == "hello-replay":
